@@ -63,3 +63,13 @@ CHECKS["C15"] = dict(
     outside=["truly concurrent writers (atomicity of the counter is the C10 discipline check)", "header shapes for which SetExtension legitimately fails (id 15 one-byte, RFC3550 profile)"],
     assumptions=["sync/atomic.AddUint32 is one atomic step"],
 )
+
+_c07_windows = [(90000, 0), (90000, 999999000), (90000, 47721858000000), (48000, 3600000000000), (8000, 536870911000000)]
+CHECKS["C07"] = dict(
+    jobs=[dict(pkg="pkg/report", entry="HC07Step")] +
+         [dict(pkg="pkg/report", entry="HC07Report", params=dict(rate=r, elbase=b, elbits=20)) for (r, b) in _c07_windows],
+    bounds=dict(quick="processRTP: one step from ANY stream state (counts, reference, sequence) with any header, payload length 0..1460, both use-latest-packet settings (inductive: any history). Report formula: elapsed time = window base + [0,2^20) ns for 5 (clock rate, base) windows incl. the 2^32-tick wrap at 90 kHz, compared with the integer reference floor(elapsed*rate/1e9) within one tick",
+                thorough="same"),
+    outside=["elapsed times outside the listed windows (float pipeline is decided per 2^20-ns window by cvc5)", "sender interceptor tick loop and multi-stream wiring", "report before any packet (zero reference time)"],
+    assumptions=["float64->uint32 conversion modelled as go1.24/amd64 executes it (cvttsd2si, low 32 bits)", "time.Time modelled as 96-bit nanosecond count"],
+)
